@@ -284,7 +284,7 @@ theorem repetitions_sound_any_anchor (cfg : Config) (env : Env) (ws : List Str) 
   rwa [hflat] at this
 
 /-- **C01 with repetition conversion, end to end on the model, all inputs** (`-r` with positive thresholds; no class option,
-case-sensitive, plain printing with both anchors; with or without capturing groups and `-e`): for every list of test cases each of at
+case-sensitive, plain printing with at least one anchor in place; with or without capturing groups and `-e`): for every list of test cases each of at
 most 1000 graphemes (the regex crate's bound on a repetition count), every segmentation meeting its contract and every non-empty test
 case `t`: the text `Display for RegExp` writes is accepted by the model of `Regex::new`, and the compiled pattern matches `t` in full.
 Chain: S1–S4 (`rep_pipeline_sound`: the converted cluster expands to the test case), S5 (the trie stands for it whatever the widening
@@ -300,9 +300,9 @@ theorem repetitions_sound (cfg : Config) (hp : RepPrint cfg) (env : Env) (ws : L
   rep_end_to_end cfg hp env ws st h hseg hlen t ht hne
 
 /-- the settings are satisfiable: `-r` alone, `-r -g -e` with thresholds 2 and 3 -/
-example : RepPrint { rep := true } ∧ RepPrint { rep := true, cap := true, esc := true, minRep := 2, minLen := 3 } :=
-  ⟨⟨rfl, by decide, ⟨rfl, rfl, rfl, rfl, rfl, rfl⟩, rfl, rfl, rfl, rfl, rfl, rfl⟩,
-   ⟨rfl, by decide, ⟨rfl, rfl, rfl, rfl, rfl, rfl⟩, rfl, rfl, rfl, rfl, rfl, rfl⟩⟩
+example : RepPrint { rep := true } ∧ RepPrint { rep := true, cap := true, esc := true, minRep := 2, minLen := 3, noStart := true } :=
+  ⟨⟨rfl, by decide, ⟨rfl, rfl, rfl, rfl, rfl, rfl⟩, rfl, rfl, rfl, rfl, rfl⟩,
+   ⟨rfl, by decide, ⟨rfl, rfl, rfl, rfl, rfl, rfl⟩, rfl, rfl, rfl, rfl, rfl⟩⟩
 
 /-- the input on which the unrepaired minimisation lost `ycc`, evaluated by the kernel on the model (the correspondence stream
 compares the same input with the implementation) -/
